@@ -410,6 +410,28 @@ def parse_sup(s):
     return d
 
 
+_CAMEL = {"preActions": "pre_actions", "feesInfo": "fees_info", "basisPoints": "basis_points", "protocolId": "protocol_id",
+          "passthroughPayload": "passthrough_payload", "destinationDomain": "destination_domain", "mintRecipient": "mint_recipient",
+          "destinationCaller": "destination_caller", "tokenId": "token_id", "customHookId": "custom_hook_id",
+          "customHookMetadata": "custom_hook_metadata", "gasLimit": "gas_limit", "maxFee": "max_fee"}
+
+
+def canon_keys(x):
+    """the payload under the proto field names: jsonpb accepts the lowerCamelCase name of every field too (it wins when both are given)"""
+    if isinstance(x, dict):
+        out = {}
+        for k, v in x.items():
+            if k not in _CAMEL:
+                out[k] = canon_keys(v)
+        for k, v in x.items():
+            if k in _CAMEL:
+                out[_CAMEL[k]] = canon_keys(v)
+        return out
+    if isinstance(x, list):
+        return [canon_keys(v) for v in x]
+    return x
+
+
 def packet_of(line):
     """decode a recv-like line -> dict(src_port, src_chan, dst_port, dst_chan, data(bytes), ftpd(dict|None), payload(dict|None))"""
     f = line.split(" ")
@@ -424,7 +446,7 @@ def packet_of(line):
             try:
                 m = _json.loads(d.get("memo", ""))
                 if isinstance(m, dict) and isinstance(m.get("orbiter"), dict):
-                    p["payload"] = m["orbiter"]
+                    p["payload"] = canon_keys(m["orbiter"])
             except Exception:
                 pass
     except Exception:
@@ -447,8 +469,22 @@ class Ledger:
 
     def __init__(self):
         self.orb = {}
+        self.saved = None
 
     def apply(self, step):
+        if step.op == "setup":
+            self.orb, self.saved = {}, None
+        if step.op == "drybegin" and step.impl_raw == "ok":
+            self.saved = dict(self.orb)
+        if step.op == "dryend" and step.impl_raw == "ok" and self.saved is not None:
+            self.orb, self.saved = self.saved, None
+        if step.op == "dispatchh" and step.impl.get("res") == "ok":
+            f = step.line.split(" ")
+            d0 = unhx(f[2]).decode("utf-8", "replace")
+            self.orb[d0] = self.orb.get(d0, 0) + int(f[1])      # the coin the operation put there before dispatching
+            for (a, dn), v in parse_delta(step.impl.get("bal")).items():
+                if a == ORBHEX:
+                    self.orb[dn] = self.orb.get(dn, 0) + v
         if step.op == "deposit" and step.impl_raw == "ok":
             f = step.line.split(" ")
             if f[1] == ORBHEX:
@@ -663,6 +699,31 @@ def stats_limit_lines(toks):
     return lines
 
 
+def shared_scenarios(seed, toks, tier, skip=()):
+    """scenario generators written for one property and useful to every property about the outcome of a transfer: each property
+    runs them at its own projection and under its own oracle"""
+    n = 60 if tier != "thorough" else 250
+    out = []
+
+    def add(name, fn):
+        if name not in skip:
+            out.append((name, fn))
+    add("receiver-and-memo-grid", lambda: c01_targeted(Rng(seed * 1000 + 901)))
+    add("bridge-refusals", lambda: c03_natural_lines(Rng(seed * 1000 + 902), toks))
+    add("statistics-at-the-limit", lambda: stats_limit_lines(toks))
+    add("dropped-branches", lambda: dry_lines(Rng(seed * 1000 + 903), toks, n))
+    add("credited-coin-on-every-route", lambda: c16_route_lines(Rng(seed * 1000 + 904), toks))
+    add("attribute-shapes", lambda: c05_lines(Rng(seed * 1000 + 905), toks, n))
+    add("fee-boundaries", lambda: c04_e2e_lines(Rng(seed * 1000 + 906), 30))
+    add("pause-levels", lambda: scen.base_setup()[0] + ["deposit %s %s %d" % (hx(POOL), hx("uother"), 10 ** 30)] + pause_targeted(toks))
+    add("spellings", lambda: scen.base_setup()[0] + [pkt_line("recv", ftpd("transfer/channel-7/uusdc", 100000, ORB, m)) for m in scen._camel_combo_memos()])
+    return [(name, fn()) for (name, fn) in out]
+
+
+def shared_streams(seed, toks, tier, fields, oracle, skip=()):
+    return [Stream("S3-shared-" + name, lines, fields=fields, oracle=oracle) for (name, lines) in shared_scenarios(seed, toks, tier, skip)]
+
+
 @prop
 class C01(Base):
     id = "C01"
@@ -677,6 +738,7 @@ class C01(Base):
                Stream("S3-statistics-at-the-limit", stats_limit_lines(toks), fields=f, oracle=c01_oracle),
                Stream("S3-dropped-branches", dry_lines(Rng(seed * 1000 + 101), toks, self.n(tier, 80, 300)))]
         sts += history_stream("S3-history", 1, tier, seed, 150, 600, f, c01_oracle)
+        sts += shared_streams(seed, toks, tier, f, c01_oracle, skip=("receiver-and-memo-grid", "bridge-refusals", "statistics-at-the-limit", "dropped-branches"))
         return sts
 
 
@@ -929,7 +991,8 @@ class C02(Base):
             [Stream("S3-bridge-refusals", c03_natural_lines(Rng(seed), toks), fields=f, oracle=lambda st: c02_oracle(st) + c01_oracle(st)),
              Stream("S3-statistics-at-the-limit", stats_limit_lines(toks), fields=f, oracle=lambda st: c02_oracle(st) + c01_oracle(st)),
              Stream("S3-dropped-branches", dry_lines(Rng(seed * 1000 + 102), toks, self.n(tier, 80, 300))),
-             Stream("S3-receiver-and-memo-grid", c01_targeted(Rng(seed * 1000 + 2)), fields=f, oracle=lambda st: c02_oracle(st) + c01_oracle(st))]
+             Stream("S3-receiver-and-memo-grid", c01_targeted(Rng(seed * 1000 + 2)), fields=f, oracle=lambda st: c02_oracle(st) + c01_oracle(st))] + \
+            shared_streams(seed, toks, tier, f, lambda st: c02_oracle(st) + c01_oracle(st), skip=("receiver-and-memo-grid", "bridge-refusals", "statistics-at-the-limit", "dropped-branches"))
 
 
 # ----------------------------------------------------------------------------------------------- C03
@@ -1047,7 +1110,8 @@ class C03(Base):
                 Stream("S3-statistics-at-the-limit", stats_limit_lines(toks), fields=f, oracle=c03_oracle),
                 Stream("S2-panicking-externals", c03_panic_lines(toks), model=False, oracle=c03_oracle, note="implementation only: the model's fault oracle returns errors"),
                 Stream("S3-dropped-branches", dry_lines(Rng(seed * 1000 + 103), toks, self.n(tier, 80, 300))),
-                Stream("S3-receiver-and-memo-grid", c01_targeted(Rng(seed * 1000 + 3)), fields=f, oracle=lambda st: c03_oracle(st) + c01_oracle(st))]
+                Stream("S3-receiver-and-memo-grid", c01_targeted(Rng(seed * 1000 + 3)), fields=f, oracle=lambda st: c03_oracle(st) + c01_oracle(st))] + \
+            shared_streams(seed, toks, tier, f, lambda st: c03_oracle(st) + c01_oracle(st), skip=("receiver-and-memo-grid", "bridge-refusals", "statistics-at-the-limit", "dropped-branches"))
 
 
 # ----------------------------------------------------------------------------------------------- C05
@@ -1109,6 +1173,8 @@ def c05_oracle(steps):
         if len(reqs) != 1:
             out.append((s.i, "route: %d bridge requests for one transfer: %s" % (len(reqs), s.impl.get("hreq", "")[:200])))
             continue
+        if any(isinstance(a, dict) and a.get("id") in ("ACTION_SWAP", 2) for a in (p["payload"].get("pre_actions") or [])):
+            continue      # a denomination-changing test controller ran: the amount and denomination forwarded are C06's subject
         exp = expected_hreq(p)
         if exp is None:
             continue
@@ -1219,7 +1285,8 @@ class C05(Base):
         _, toks = scen.base_setup()
         f = {"recvh": ["ack", "hreq"], "recv": ["ack", "req"], "msgh": ["res", "hreq"]}
         return [Stream("S2-recorded-requests", c05_lines(r, toks, self.n(tier, 150, 1500)), fields=f, oracle=c05_unrouted_oracle)] + \
-            history_stream("S3-typed-events", 5, tier, seed, 120, 500, {"recv": ["ack", "req"]}, None, n_hist_quick=1, n_hist_thorough=4, p_admin=5, p_deposit=3, p_query=0, p_reimport=0)
+            history_stream("S3-typed-events", 5, tier, seed, 120, 500, {"recv": ["ack", "req"]}, None, n_hist_quick=1, n_hist_thorough=4, p_admin=5, p_deposit=3, p_query=0, p_reimport=0) + \
+            shared_streams(seed, toks, tier, f, c05_unrouted_oracle, skip=("attribute-shapes",))
 
 
 # ----------------------------------------------------------------------------------------------- C06
@@ -1371,7 +1438,10 @@ class C06(Base):
     def streams(self, tier, seed):
         r = Rng(seed * 1000 + 6)
         f = {"recvh": ["ack", "hreq", "bal", "st"]}
-        return [Stream("S2-two-controllers", c06_lines(r, self.n(tier, 60, 800)), fields=f, oracle=c06_oracle)]
+        _, toks = scen.base_setup()
+        f2 = {"recvh": ["ack", "hreq", "bal", "st"], "recv": ["ack", "req", "bal", "mv", "st"], "dispatchh": ["res", "hreq", "bal", "st"]}
+        return [Stream("S2-two-controllers", c06_lines(r, self.n(tier, 60, 800)), fields=f, oracle=c06_oracle)] + \
+            shared_streams(seed, toks, tier, f2, None)
 
 
 # ----------------------------------------------------------------------------------------------- C07
@@ -1990,6 +2060,8 @@ class C11(Base):
         kf += ["env hyp igp %s 1 10000000000 1 50000" % hx("stake"), "deposit %s %s 5000000" % (hx(ORB_BYTES), hx("stake")),
                orb_pkt("recv", 10 ** 6, hyp_fwd(tok, domain=1, gas=100000, fee=("stake", 10 ** 6))), "env hyp noop"]
         out.append(Stream("S3-igp-hook-corpus", kf, fields={"recv": ["ack", "bal"]}, oracle=c11_igp_oracle))
+        out += shared_streams(seed, toks, tier, {"recv": ["ack", "bal", "mv", "st"], "recvh": ["ack", "bal", "hreq", "st"]}, c01_oracle,
+                              skip=("attribute-shapes", "pause-levels", "spellings"))
         return out
 
 
@@ -2096,6 +2168,9 @@ class C12(Base):
                     hist2.append(orb_pkt("recvh", r.range(1, 10 ** 9), int_fwd(r.choice(U[:3])), [swap_action(), fee_action([(U[4], "b", 100)])], denom="uusdc", dst_chan=r.choice(CHANNELS)))
             out.append(Stream("S3-stats-history-%d" % h, lines + hist2, fields=f, oracle=c12_oracle))
         out.append(Stream("S3-large-ledger", large_ledger_lines(Rng(seed * 1000 + 112))))
+        _, toks = scen.base_setup()
+        out += shared_streams(seed, toks, tier, {"recv": ["ack", "st"], "recvh": ["ack", "st"], "msg": ["res", "st"], "export": ["st"], "query": ["res", "out"]}, None,
+                              skip=("spellings",))
         return out
 
 
@@ -2223,7 +2298,8 @@ class C16(Base):
         return [Stream("S1+S3-denominations-beside-ICS20", c16_lines(r, self.n(tier, 200, 2000)), fields=f, oracle=c16_oracle),
                 Stream("S3-credited-coin-on-every-route", c16_route_lines(r.fork(2), toks), fields=f2, oracle=c16_oracle),
                 Stream("S3-dropped-branches", dry_lines(Rng(seed * 1000 + 116), toks, self.n(tier, 60, 300))),
-                Stream("S3-statistics-at-the-limit", stats_limit_lines(toks), fields=f2, oracle=c16_oracle)]
+                Stream("S3-statistics-at-the-limit", stats_limit_lines(toks), fields=f2, oracle=c16_oracle)] + \
+            shared_streams(seed, toks, tier, f2, c16_oracle, skip=("credited-coin-on-every-route", "statistics-at-the-limit", "dropped-branches"))
 
 
 # ----------------------------------------------------------------------------------------------- C18
